@@ -227,6 +227,28 @@ func (w PWorld) Replay(c *sim.Case, o sim.Options) *sim.Result {
 		viol("C16", "panic", pan, len(c.Steps))
 		return res
 	}
+	// what every caller holds is frozen (as JSON) before anything else is
+	// computed: the reference runs below use the same packages and must not be
+	// able to disturb, or repair, what is being judged
+	potsJSON := make([][]byte, len(st))
+	resJSON := make([][]byte, len(st))
+	for k, p := range st {
+		potsJSON[k], _ = json.Marshal(p.pots)
+		resJSON[k], _ = json.Marshal(p.res)
+	}
+	for k, p := range st {
+		who := fmt.Sprintf("caller %d", k)
+		if on("C16") {
+			var pots []*pot.Pot
+			json.Unmarshal(potsJSON[k], &pots)
+			checkPotsDirect(pots, p.c, who, func(sig, d string) { viol("C16", sig, d, len(c.Steps)) })
+		}
+		if on("C02") {
+			var r2 settlement.Result
+			json.Unmarshal(resJSON[k], &r2)
+			checkResultDirect(&r2, p.c, who, res, func(sig, d string) { viol("C02", sig, d, len(c.Steps)) })
+		}
+	}
 	for k, p := range st {
 		// solo reference: the same script alone
 		solo := &pState{c: p.c, n: p.n}
@@ -235,20 +257,16 @@ func (w PWorld) Replay(c *sim.Case, o sim.Options) *sim.Result {
 		}
 		who := fmt.Sprintf("caller %d", k)
 		if on("C16") {
-			a, _ := json.Marshal(p.pots)
 			b, _ := json.Marshal(solo.pots)
-			if string(a) != string(b) {
-				viol("C16", "interleaved-callers: published pots differ from the same calls made alone", fmt.Sprintf("%s: %s vs alone %s", who, a, b), len(c.Steps))
+			if string(potsJSON[k]) != string(b) {
+				viol("C16", "interleaved-callers: published pots differ from the same calls made alone", fmt.Sprintf("%s: %s vs alone %s", who, potsJSON[k], b), len(c.Steps))
 			}
-			checkPotsDirect(p.pots, p.c, who, func(sig, d string) { viol("C16", sig, d, len(c.Steps)) })
 		}
 		if on("C02") {
-			a, _ := json.Marshal(p.res)
 			b, _ := json.Marshal(solo.res)
-			if string(a) != string(b) {
-				viol("C02", "interleaved-callers: result differs from the same calls made alone", fmt.Sprintf("%s: %s vs alone %s", who, a, b), len(c.Steps))
+			if string(resJSON[k]) != string(b) {
+				viol("C02", "interleaved-callers: result differs from the same calls made alone", fmt.Sprintf("%s: %s vs alone %s", who, resJSON[k], b), len(c.Steps))
 			}
-			checkResultDirect(p.res, p.c, who, res, func(sig, d string) { viol("C02", sig, d, len(c.Steps)) })
 		}
 	}
 	return res
